@@ -587,7 +587,17 @@ _MODELS = {
     "ext:ctypes.c_int32": lambda x: _CInt(x, 32, True), "ext:ctypes.c_uint32": lambda x: _CInt(x, 32, False),
     "ext:ctypes.c_int16": lambda x: _CInt(x, 16, True), "ext:ctypes.c_uint16": lambda x: _CInt(x, 16, False),
     "len": lambda x: len(x), "int": lambda x: int(x), "bool": lambda x: bool(x), "abs": lambda x: abs(x),
+    # pure Python built-ins on integers
+    "range": lambda *a: range(*[_int(x) for x in a]), ".bit_length": lambda x: _int(x).bit_length(),
+    ".bit_count": lambda x: bin(_int(x)).count("1"), "pow": lambda *a: pow(*[_int(x) for x in a]),
+    "hex": lambda x: hex(_int(x)), "bin": lambda x: bin(_int(x)),
 }
+
+
+def _int(x):
+    if isinstance(x, bool) or not isinstance(x, int):
+        raise TypeError("not an int")
+    return int(x)
 
 
 def _key(v):
